@@ -940,7 +940,7 @@ func writeEvidence(prop, tier string, results []jobResult, wall time.Duration, n
 		al = append(al, a)
 	}
 	sort.Strings(al)
-	al = append(al, "z3 verdicts are trusted (unknown/timeout/error => INCONCLUSIVE, exit 2)",
+	al = append(al, "solver verdicts are trusted: z3 4.8.12 for every query; for queries z3 leaves undecided in its incremental session, a fresh z3 process and cvc5 1.0 run side by side and an unsat from either is accepted (models always come from z3); unknown/timeout/error => INCONCLUSIVE, exit 2",
 		"SSA->SMT semantics of /verif/engine (bit-vector integers with Go wrap-around; floats concrete only)",
 		"bounds: every harness instance fixes its shape parameters (sizes, counts); inside a shape all nondeterministic inputs are symbolic")
 	if len(samples) == 0 {
